@@ -240,6 +240,7 @@ type backDesc struct {
 	Name    string  `json:"name"`
 	Params  []pdesc `json:"params"`
 	Returns []pdesc `json:"returns,omitempty"`
+	Details string  `json:"details,omitempty"` // entry-level details (JSON text), carried along only
 	Impl    string  `json:"impl"`
 }
 
@@ -292,6 +293,7 @@ type H struct {
 	seen        map[string]bool
 	nSampleBack int
 	nSampleFwd  int
+	rt          *retained
 }
 
 var kindNames = []string{"method", "event", "error"}
@@ -302,7 +304,31 @@ var sawNestedAtOdds bool
 // addBack runs one FFI -> ABI conversion and records it.  nestedTypeMut marks inputs produced by
 // retyping the JSON type of a nested member (statistics only).
 func (h *H) addBack(kind int, name string, params, returns []pdesc, origin string, nestedTypeMut bool) (*abi.Entry, int) {
-	e, err, pan := safeBack(kind, name, params, returns)
+	return h.addBackD(kind, name, params, returns, "", origin, nestedTypeMut)
+}
+
+// addBackD: as addBack, with entry-level details (JSON text) on the definition.  The entry handed back
+// is a deep copy: the one the implementation returned is overwritten afterwards (see scribbleEntry), and
+// the conversion is retained to be repeated later (state kept across calls).
+func (h *H) addBackD(kind int, name string, params, returns []pdesc, details string, origin string, nestedTypeMut bool) (*abi.Entry, int) {
+	e, err, pan, touched := runBack(kind, name, params, returns, details)
+	kb := keptBack{kind: kind, name: name, params: params, returns: returns, details: details, proj: backProj(e, err, pan)}
+	if touched {
+		h.st.ImplFailures = append(h.st.ImplFailures, kb.desc("the FFI -> ABI conversion modified the parameter list it was given", nil))
+	}
+	cls := h.recordBack(kind, name, params, returns, details, origin, e, err, pan)
+	var ret *abi.Entry
+	if cls == 0 && e != nil {
+		if c := freshABI(abi.ABI{e}); len(c) == 1 {
+			ret = c[0]
+		}
+		scribbleEntry(e)
+	}
+	h.keepBack(kb)
+	return ret, cls
+}
+
+func (h *H) recordBack(kind int, name string, params, returns []pdesc, details string, origin string, e *abi.Entry, err error, pan string) int {
 	cls := 0
 	impl := ""
 	switch {
@@ -319,7 +345,7 @@ func (h *H) addBack(kind int, name string, params, returns []pdesc, origin strin
 		o, ok2 := coqParams(e.Outputs)
 		if serr != nil || sp || hp || !ok1 || !ok2 {
 			h.st.ImplFailures = append(h.st.ImplFailures, map[string]interface{}{"what": "entry returned by the FFI -> ABI conversion has no signature / holds a nil component", "kind": kindNames[kind], "name": name, "params": params, "returns": returns})
-			return e, cls
+			return cls
 		}
 		sig, helper, ins, outs = s, hs, i, o
 		impl = "ok " + s
@@ -352,7 +378,6 @@ func (h *H) addBack(kind int, name string, params, returns []pdesc, origin strin
 	if sawNestedAtOdds {
 		h.st.Hit(fmt.Sprintf("back:nested-member-json-type-at-odds:class=%d", cls))
 	}
-	_ = nestedTypeMut // (the former known finding C20/nested-json-type-unchecked is repaired: 509d77b)
 	term := fmt.Sprintf("CBack %d %s %s %s %d %s %s %s %s", kind, cb(name), clist(pins), clist(rins), cls, cb(sig), ins, outs, cb(helper))
 	dk := fmt.Sprintf("b|%d|%s|%v|%v", kind, name, params, returns)
 	if !h.seen[dk] {
@@ -361,13 +386,13 @@ func (h *H) addBack(kind int, name string, params, returns []pdesc, origin strin
 			h.st.Distinct++
 		}
 	}
-	d := backDesc{Kind: "back/" + kindNames[kind], Key: key, Origin: origin, Name: name, Params: params, Returns: returns, Impl: impl}
+	d := backDesc{Kind: "back/" + kindNames[kind], Key: key, Origin: origin, Name: name, Params: params, Returns: returns, Details: details, Impl: impl}
 	if strings.HasPrefix(origin, "mutated") && h.nSampleBack < 4 && len(params) == 1 && len(params[0].Schema) < 700 {
 		h.nSampleBack++
 		h.st.Samples = append(h.st.Samples, d)
 	}
 	h.w.Add(term, d)
-	return e, cls
+	return cls
 }
 
 type fwdDesc struct {
@@ -391,6 +416,9 @@ func coqFFIParams(ps fftypes.FFIParams) (string, []pdesc, bool) {
 	out := make([]string, len(ps))
 	ds := make([]pdesc, len(ps))
 	for i, p := range ps {
+		if p == nil || p.Schema == nil {
+			return "", nil, false
+		}
 		text := p.Schema.String()
 		s, err := unmarshal(text)
 		if err != nil || s == nil {
@@ -465,7 +493,9 @@ func allExplicit(pa abi.ParameterArray) bool {
 func (h *H) addFwd(a abi.ABI, origin string, inQuant bool) []pdesc {
 	raw, _ := json.Marshal(a)
 	work := freshABI(a)
+	before, _ := json.Marshal(work)
 	f, err, pan := safeFwd(work)
+	h.checkFwdState(raw, work, before, fwdProj(f, err, pan))
 	cls, impl := 0, "ok"
 	switch {
 	case pan != "":
@@ -489,6 +519,14 @@ func (h *H) addFwd(a abi.ABI, origin string, inQuant bool) []pdesc {
 		name    string
 		params  []pdesc
 		returns []pdesc
+		details string
+	}
+	dtext := func(d fftypes.JSONObject) string {
+		if d == nil {
+			return ""
+		}
+		b, _ := json.Marshal(d)
+		return string(b)
 	}
 	var convs []conv
 	if cls == 0 {
@@ -498,19 +536,19 @@ func (h *H) addFwd(a abi.ABI, origin string, inQuant bool) []pdesc {
 			r, rd, ok2 := coqFFIParams(m.Returns)
 			ok = ok && ok1 && ok2
 			ms = append(ms, fmt.Sprintf("(mkMethod %s %s %s)", cb(m.Name), p, r))
-			convs = append(convs, conv{0, m.Name, pd, rd})
+			convs = append(convs, conv{0, m.Name, pd, rd, dtext(m.Details)})
 		}
 		for _, m := range f.Events {
 			p, pd, ok1 := coqFFIParams(m.Params)
 			ok = ok && ok1
 			evs = append(evs, fmt.Sprintf("(mkMethod %s %s [])", cb(m.Name), p))
-			convs = append(convs, conv{1, m.Name, pd, nil})
+			convs = append(convs, conv{1, m.Name, pd, nil, dtext(m.Details)})
 		}
 		for _, m := range f.Errors {
 			p, pd, ok1 := coqFFIParams(m.Params)
 			ok = ok && ok1
 			ers = append(ers, fmt.Sprintf("(mkMethod %s %s [])", cb(m.Name), p))
-			convs = append(convs, conv{2, m.Name, pd, nil})
+			convs = append(convs, conv{2, m.Name, pd, nil, ""})
 		}
 		if !ok {
 			h.st.ImplFailures = append(h.st.ImplFailures, map[string]interface{}{"what": "ConvertABIToFFI produced a parameter schema that is not a JSON object decodable as a Schema", "abi": json.RawMessage(raw)})
@@ -541,7 +579,16 @@ func (h *H) addFwd(a abi.ABI, origin string, inQuant bool) []pdesc {
 	for _, c := range convs {
 		schemas = append(schemas, c.params...)
 		schemas = append(schemas, c.returns...)
-		back, bcls := h.addBack(c.kind, c.name, c.params, c.returns, "roundtrip", false)
+		back, bcls := h.addBackD(c.kind, c.name, c.params, c.returns, c.details, "roundtrip", false)
+		// the same schemas under other parameter names / in another parameter order: the model says what
+		// must come back (a result remembered by schema text alone would carry the first name)
+		if n := len(c.params); n > 0 && h.rt.r.Intn(5) == 0 {
+			ren := make([]pdesc, n)
+			for i, p := range c.params {
+				ren[n-1-i] = pdesc{Name: p.Name + "_r", Schema: p.Schema}
+			}
+			h.addBackD(c.kind, c.name, ren, c.returns, c.details, "roundtrip-renamed", false)
+		}
 		if !inQuant {
 			continue
 		}
@@ -605,7 +652,10 @@ func (h *H) addFwd(a abi.ABI, origin string, inQuant bool) []pdesc {
 // ---------- ABI generation ----------
 
 var identNames = []string{"a", "b", "value", "to", "from", "_x", "amount", "data", "id", "owner", "x1", "Y", "tokenId", "s", "k9"}
-var oddNames = []string{"", "a#b", "%zz", "a b", "é", "details", "type", "properties", "a/b", "0", "\"q\""}
+var oddNames = []string{"", "a#b", "%zz", "a b", "é", "details", "type", "properties", "a/b", "0", "\"q\"",
+	// the name is used as a URL by the schema compiler: scheme-like prefixes, a colon in the first segment, dot segments,
+	// the names of the meta-schema resources themselves (D20j: ':')
+	"A:b", ":", "1:b", "C:\\x", "Http://x/y", ".", "..", "ffi.json", "ffiParamDetails.json", "a?b", "a\x00b"}
 
 func distinctNames(r *cv.Rand, n int, odd bool) []string {
 	used := map[string]bool{}
@@ -645,7 +695,7 @@ func nameAll(r *cv.Rand, t *abigen.Type, odd bool) {
 
 func decorate(r *cv.Rand, p *abi.Parameter, event bool) {
 	if r.Intn(3) == 0 {
-		p.InternalType = []string{"struct Widget.Thing", "contract IERC20", "uint256", "enum E", p.Type}[r.Intn(5)]
+		p.InternalType = []string{"struct Widget.Thing", "contract IERC20", "uint256", "enum E", p.Type, " struct A.B ", "tuple", "x\ty", "\"q\"", "é"}[r.Intn(10)]
 	}
 	if event && r.Intn(2) == 0 || !event && r.Intn(12) == 0 {
 		p.Indexed = true
@@ -746,6 +796,7 @@ func genABI(r *cv.Rand, st *cv.Stats, explicit, odd bool) abi.ABI {
 			e.Type = abi.Error
 			e.Inputs = genParams(r, st, r.Intn(3), false, explicit, odd)
 		}
+		decorateEntry(r, e)
 		st.Hit("entry:" + string(e.Type))
 		a = append(a, e)
 	}
@@ -791,7 +842,7 @@ func mutate(r *cv.Rand, root *jv) (string, bool) {
 	n := nodes[r.Intn(len(nodes))]
 	nested := n != root
 	det := n.get("details")
-	switch c := r.Intn(22); {
+	switch c := r.Intn(26); {
 	case c == 0:
 		k := []string{"type", "details", "items", "properties", "oneOf"}[r.Intn(5)]
 		if n.del(k) {
@@ -968,6 +1019,36 @@ func mutate(r *cv.Rand, root *jv) (string, bool) {
 			return "retype-items", false
 		}
 		return "none", false
+	case c == 22 || c == 23: // both "type" and "oneOf" on one node (the meta-schema refuses that at the levels it looks at, not under "items")
+		t := jsonTypes[r.Intn(len(jsonTypes))]
+		if n.get("oneOf") != nil {
+			n.set("type", jstr(t))
+			return "type-beside-oneOf", false
+		}
+		if n.get("type") != nil {
+			alts := []*jv{jobj(kv{"type", jstr("string")}), jobj(kv{"type", jstr(jsonTypes[r.Intn(len(jsonTypes))])})}
+			if r.Intn(4) == 0 {
+				alts[0], alts[1] = alts[1], alts[0]
+			}
+			n.set("oneOf", jarr(alts...))
+			return "oneOf-beside-type", false
+		}
+		return "none", false
+	case c == 24: // a key encoding/json folds onto a field name (U+017F), unknown to the jsonschema compile
+		k := []string{"item\u017f", "detail\u017f", "propertie\u017f"}[r.Intn(3)]
+		var v *jv
+		switch r.Intn(4) {
+		case 0:
+			v = jnull()
+		case 1:
+			v = jobj(kv{"a", jnull()})
+		case 2:
+			v = jobj(kv{"type", jstr(ethTypes[r.Intn(len(ethTypes))])}, kv{"index", jnum(fmt.Sprint(r.Intn(3) - 1))})
+		default:
+			v = otherKind(r)
+		}
+		n.o = append(n.o, kv{k, v})
+		return "folded-key", false
 	default:
 		if p := n.get("properties"); p.isObj() {
 			n.set("properties", otherKind(r))
@@ -1025,7 +1106,7 @@ func main() {
 	if *replay != "" {
 		shards = 1
 	}
-	h := &H{w: cv.NewWriter(*out, "C20", header, "case", "mismatches", shards), st: st, seen: map[string]bool{}}
+	h := &H{w: cv.NewWriter(*out, "C20", header, "case", "mismatches", shards), st: st, seen: map[string]bool{}, rt: newRetained(400)}
 
 	if *replay != "" {
 		raw, err := os.ReadFile(*replay)
@@ -1046,7 +1127,11 @@ func main() {
 			var d backDesc
 			json.Unmarshal(rp.Case, &d)
 			kind := map[string]int{"back/method": 0, "back/event": 1, "back/error": 2}[d.Kind]
-			_, cls := h.addBack(kind, d.Name, d.Params, d.Returns, "replay", false)
+			_, cls := h.addBackD(kind, d.Name, d.Params, d.Returns, d.Details, "replay", false)
+			for i := 0; i < 3; i++ { // state kept across calls: the same definition again
+				h.reverifyBack(&h.rt.backs[0], "repeated")
+			}
+			h.concurrent(4)
 			fmt.Println("implementation class (0 ok, 1 error, 2 panic):", cls)
 		default:
 			var d struct {
@@ -1081,7 +1166,9 @@ func main() {
 	}
 
 	thorough := *tier == "thorough"
-	r := cv.NewRand(20)
+	// cv.NewRand(stream) starts at seed*gamma + stream*K: the streams of VERIF_SEED=k and k+1 are the same
+	// sequence shifted by one draw.  The stream number is made to depend on the seed as well.
+	r := cv.NewRand(20 + uint64(cv.Seed())*1000003)
 	var pool []pdesc
 
 	// --- fixed corpus: the witnesses of the repaired defects (D20a..h) and boundary schemas ---
@@ -1104,6 +1191,11 @@ func main() {
 		{"x", `{"type":"object","details":{"type":"tuple"},"properties":{"a":{"type":"string","details":{"type":"string","index":1e400}}}}`},   // D20g
 		{"a#b", `{"type":"string","details":{"type":"string"}}`},                                                                                   // D20h
 		{"%zz", `{"type":"string","details":{"type":"string"}}`},                                                                                   // D20h
+		{"A:b", `{"type":"string","details":{"type":"string"}}`}, // D20j
+		{":a", `{"type":"string","details":{"type":"string"}}`},  // D20j
+		{"1:b", `{"type":"object","details":{"type":"tuple"},"properties":{"C:\\x":{"type":"string","details":{"type":"string","index":0}}}}`}, // D20j
+		{"ffi.json", `{"type":"string","details":{"type":"string"}}`},
+		{"..", `{"type":"string","details":{"type":"string","indexed":"yes"}}`},
 		{"x", `{"type":"object","details":{"type":"tuple"},"properties":{"a":{"type":"boolean","details":{"type":"uint256","index":0}}}}`},      // D20i: nested JSON type at odds
 		{"x", `{"type":"array","details":{"type":"tuple[][]"},"items":{"type":"array","items":{"type":"object","properties":{"a":{"type":"object","details":{"type":"string","index":0}}}}}}`}, // D20i under array levels
 		{"x", `{"type":"object","details":{"type":"tuple"},"properties":{"a":{"type":"string","details":{"type":"tuple","index":0}}}}`},          // D20i: string against a nested tuple
@@ -1141,6 +1233,75 @@ func main() {
 	h.addBack(0, "g", []pdesc{{"a", `{"type":"string","details":{"type":"string"}}`}, {"b", `{"type":"array","details":{"type":"bool[]"}}`}}, nil, "corpus", false)
 	h.addBack(0, "g", []pdesc{{"a", `{"type":"string","details":{"type":"string"}}`}}, []pdesc{{"r", `{"type":"string","details":{"type":"tuple"}}`}}, "corpus", false)
 	h.addBack(0, "", nil, nil, "corpus", false)
+	// a later parameter / a return that only the meta-schema refuses (decodes, and processField alone would accept it)
+	good := pdesc{"a", `{"type":"string","details":{"type":"string"}}`}
+	for i, bad := range []string{
+		`{"oneOf":[{"type":"string"},{"type":"boolean"},{"type":"integer"}],"details":{"type":"uint256"}}`,
+		`{"type":"string","oneOf":[{"type":"string"},{"type":"integer"}],"details":{"type":"uint256"}}`,
+		`{"type":"string","details":{"type":"string"},"$ref":"#/nowhere"}`,
+		`{"type":"string","details":{"type":"string"},"properties":5}`,
+		`{"type":"wibble","details":{"type":"string"}}`,
+	} {
+		h.addBack(i%3, "g", []pdesc{{"b", bad}}, nil, "corpus-later-param", false)
+		h.addBack(i%3, "g", []pdesc{good, {"b", bad}}, nil, "corpus-later-param", false)
+		h.addBack(i%3, "g", []pdesc{good, good, {"b", bad}, good}, nil, "corpus-later-param", false)
+		h.addBack(0, "g", []pdesc{good}, []pdesc{{"r", bad}}, "corpus-later-param", false)
+		h.addBack(0, "g", nil, []pdesc{good, {"r", bad}}, "corpus-later-param", false)
+	}
+	// both "type" and "oneOf" on a member the meta-schema does not look at (under "items"): oneOf decides
+	for _, m := range []string{
+		`{"type":"string","oneOf":[{"type":"string"},{"type":"boolean"}],"details":{"type":"uint256","index":0}}`,
+		`{"type":"boolean","oneOf":[{"type":"string"},{"type":"integer"}],"details":{"type":"uint256","index":0}}`,
+		`{"type":"object","oneOf":[{"type":"string"},{"type":"integer"}],"details":{"type":"uint256","index":0}}`,
+		`{"type":"array","oneOf":[{"type":"string"},{"type":"integer"}],"details":{"type":"uint256","index":0}}`,
+		`{"type":"integer","oneOf":[],"details":{"type":"uint256","index":0}}`,
+		`{"type":"integer","oneOf":null,"details":{"type":"uint256","index":0}}`,
+	} {
+		h.addBack(0, "f", []pdesc{{"x", `{"type":"array","details":{"type":"tuple[]"},"items":{"type":"object","properties":{"a":` + m + `}}}`}}, nil, "corpus", false)
+		h.addBack(1, "f", []pdesc{{"x", `{"type":"object","details":{"type":"tuple"},"properties":{"a":` + m + `}}`}}, nil, "corpus", false)
+	}
+	// entry-level details of every shape beside a good and a bad parameter (carried along only)
+	for i, d := range oddDetails {
+		h.addBackD(i%2, "d", []pdesc{{"a", `{"oneOf":[{"type":"string"},{"type":"integer"}],"details":{"type":"uint256","indexed":true}}`}}, nil, d, "corpus-details", false)
+		h.addBackD(i%2, "d", []pdesc{{"a", `{"type":"array","details":{"type":"bool[]"}}`}}, nil, d, "corpus-details", false)
+	}
+	// a parameter without a schema (what {"name":"x"} decodes to): an error, not a panic
+	for kind := 0; kind < 3; kind++ {
+		func() {
+			defer func() {
+				if x := recover(); x != nil {
+					st.ImplFailures = append(st.ImplFailures, map[string]interface{}{"what": "the FFI -> ABI conversion panicked on a parameter without a schema: " + fmt.Sprint(x), "kind": kindNames[kind]})
+				}
+			}()
+			ps := fftypes.FFIParams{{Name: "x"}}
+			var e *abi.Entry
+			var err error
+			switch kind {
+			case 0:
+				e, err = ffi2abi.ConvertFFIMethodToABI(ctx, &fftypes.FFIMethod{Name: "f", Params: ps})
+			case 1:
+				e, err = ffi2abi.ConvertFFIEventDefinitionToABI(ctx, &fftypes.FFIEventDefinition{Name: "f", Params: ps})
+			default:
+				e, err = ffi2abi.ConvertFFIErrorDefinitionToABI(ctx, &fftypes.FFIErrorDefinition{Name: "f", Params: ps})
+			}
+			st.Hit("corpus:parameter-without-schema")
+			if err == nil || e != nil {
+				st.ImplFailures = append(st.ImplFailures, map[string]interface{}{"what": "the FFI -> ABI conversion accepted a parameter without a schema", "kind": kindNames[kind]})
+			}
+		}()
+	}
+	h.directedMembers()
+
+	// --- forward corpus: degenerate ABIs ---
+	h.addFwd(abi.ABI{}, "degenerate-abi", true)
+	h.addFwd(abi.ABI{{Type: abi.Constructor, Inputs: abi.ParameterArray{{Name: "a", Type: "uint256"}}}, {Type: abi.Fallback}, {Type: abi.Receive}}, "degenerate-abi", true)
+	h.addFwd(abi.ABI{{Type: abi.Function, Name: "noargs"}, {Type: abi.Event, Name: "NoArgs"}, {Type: abi.Error, Name: "NoArgsErr"}}, "degenerate-abi", true)
+	h.addFwd(abi.ABI{{Type: abi.Function, Name: "onlyout", Outputs: abi.ParameterArray{{Name: "r", Type: "tuple[]", Components: abi.ParameterArray{{Name: "m", Type: "bool"}}}}}}, "degenerate-abi", true)
+	for _, bt := range []string{"uint7", "tuple7", "wibble", "uint256[", ""} {
+		// valid inputs, an invalid type among the outputs / nested in an output
+		h.addFwd(abi.ABI{{Type: abi.Function, Name: "badout", Inputs: abi.ParameterArray{{Name: "a", Type: "uint256"}}, Outputs: abi.ParameterArray{{Name: "ok", Type: "bool"}, {Name: "r", Type: bt}}}}, "bad-output-type", false)
+		h.addFwd(abi.ABI{{Type: abi.Function, Name: "badout", Outputs: abi.ParameterArray{{Name: "r", Type: "tuple", Components: abi.ParameterArray{{Name: "m", Type: bt}}}}}}, "bad-output-type", false)
+	}
 
 	// --- forced shapes, one ABI each, every entry kind ---
 	for i, mk := range forcedShapes {
@@ -1158,6 +1319,8 @@ func main() {
 		st.Hit("param:" + shapeTag(t))
 		pool = append(pool, h.addFwd(a, "forced-shape", true)...)
 	}
+
+	pool = append(pool, h.directedFwd()...)
 
 	// --- random valid ABIs within the quantifier ---
 	nABI := 110
@@ -1253,7 +1416,11 @@ func main() {
 			rets = []pdesc{{Name: "ret", Schema: text}}
 			h.addBack(0, "m", []pdesc{pool[r.Intn(len(pool))]}, rets, "mutated:"+kinds[0], known)
 		} else {
-			h.addBack(kind, "m", []pdesc{{Name: name, Schema: text}}, nil, "mutated:"+kinds[0], known)
+			det := ""
+			if r.Intn(6) == 0 {
+				det = oddDetails[r.Intn(len(oddDetails))]
+			}
+			h.addBackD(kind, "m", []pdesc{{Name: name, Schema: text}}, nil, det, "mutated:"+kinds[0], known)
 		}
 	}
 
@@ -1303,6 +1470,13 @@ func main() {
 		panic(err)
 	}
 	st.Evaluations = h.w.Count()
+	// the concurrent section comes last and the case files are complete before it: an unrecoverable
+	// fault there (concurrent map writes) kills the process, which ./check reports with this note
+	cur := filepath.Join(*out, "current_case.json")
+	os.WriteFile(cur, []byte(`{"section":"every retained FFI -> ABI and ABI -> FFI conversion again from 8 goroutines at once"}`), 0o644)
+	h.concurrent(8)
+	os.Remove(cur)
+	st.Extra["state_reverified_conversions"] = h.rt.nRe
 	st.Rule = "ABIs with distinct entry names and distinct member names over abigen type trees (depth<=4; forced tuple[][], tuple[2][], tuple[][3][], tuples in tuples, empty tuples, T[k][k][k]) with random internalType/indexed and odd names -> ConvertABIToFFI, every produced method/event/error converted back (round-trip oracle), Signature vs ABIMethodToSignature per entry; ABIs outside the quantifier (overloads, invalid types, duplicate members, unnamed/other entry types); generated schemas mutated (remove/retype type, details, items, properties, oneOf, index; index -1, n, >n, huge, fractional, duplicate, swapped; JSON type at odds at top and nested; Ethereum type replaced; duplicate keys in other case; members replaced/removed/added; array levels added/removed); arbitrary JSON, truncated and random text, objects up to 16 KiB. distinct = distinct ABI / (kind, name, schemas); non-trivial = at least one parameter"
 	st.Samples = append(st.Samples,
 		`CBack 0 "f" [x: {"type":"array","details":{"type":"uint256[]"}}] -> error (array schema without items)`,
